@@ -336,4 +336,76 @@ def step (cfg : Cfg) (s : Store) (now : Nat) (r : Req) (a : Msg) (dep : Bool) : 
 
 end Ecs
 
+/-! ## Faults of the next handler (round 4)
+
+The next handler returns an error (with or without having written a message), writes nothing at
+all, or — ECS cache — answers with an ECS option `dnsmsg.ECSFromMsg` rejects.  In each case the
+middleware returns before `set`: a request that is not served from the cache leaves no trace. -/
+
+/-- `Wrap` of the simple cache when the next handler fails: `(store, what is written)`. -/
+def Simple.stepFault (f : Nat → Nat → Nat) (s : Store) (now : Nat) (r : Req) : Store × Option Msg :=
+  match s.live now (Simple.keyOfReq r) with
+  | some e => (s, some (Simple.hitWith f e.msg (now - e.at_) r))
+  | none => (s, none)
+
+/-- `mwHandler.ServeDNS` of the ECS cache when the next handler fails. -/
+def Ecs.stepFault (s : Store) (now : Nat) (r : Req) : Store × Option Msg :=
+  match Ecs.lookup s now r with
+  | some e => (s, some (Ecs.hit e.msg (now - e.at_) r))
+  | none => (s, none)
+
+/-! ## From the request information to the cache request (round 4)
+
+What `mwHandler.ServeDNS`, `ecsFamFromReq` and `locFromReq` derive before the look-up.  Countries
+are numbers, `0` = `geoip.CountryNone`. -/
+
+structure RI where
+  /-- `ri.ECS != nil` -/
+  hasECS : Bool
+  /-- prefix length of the client's ECS option -/
+  ecsBits : Nat
+  /-- the address of the client's ECS option is IPv6 -/
+  ecsFam6 : Bool
+  /-- `ri.RemoteIP` is IPv6 -/
+  remoteFam6 : Bool
+  /-- country of `ri.ECS.Location` (`0` when there is no location or it has no country) -/
+  ecsCtry : Nat
+  /-- country of `ri.Location` (`0` when nil) -/
+  connCtry : Nat
+deriving DecidableEq, Repr
+
+namespace Ecs
+
+/-- `ecsFamFromReq`. -/
+def famOf (ri : RI) : Bool := if ri.hasECS then ri.ecsFam6 else ri.remoteFam6
+
+/-- `cr.isECSDeclined`. -/
+def declinedOf (ri : RI) : Bool := ri.hasECS && ri.ecsBits == 0
+
+/-- The country `locFromReq` hands to `SubnetByLocation`. -/
+def ctryOf (ri : RI) : Nat := if ri.hasECS ∧ ri.ecsCtry ≠ 0 then ri.ecsCtry else ri.connCtry
+
+/-- `cr.subnet` given the GeoIP table `geo country fam6` (identity of the subnet, `0` = zero prefix). -/
+def subnetOf (geo : Nat → Bool → Nat) (ri : RI) : Nat :=
+  if declinedOf ri then 0 else geo (ctryOf ri) (famOf ri)
+
+end Ecs
+
+/-! ## Production wiring (round 4): `cacheConfig.toInternal` and `wrapPreUpstreamMw` -/
+
+/-- The `cache` section of the configuration file; `min` in nanoseconds. -/
+structure Yaml where
+  typeSimple : Bool
+  size : Nat
+  ecsSize : Nat
+  min : Nat
+  enabled : Bool
+deriving DecidableEq, Repr
+
+/-- Which middleware `wrapPreUpstreamMw` builds: `0` none, `1` simple, `2` ECS. -/
+def Yaml.kind (y : Yaml) : Nat := if y.size = 0 then 0 else if y.typeSimple then 1 else 2
+
+/-- The `Cfg` both constructors receive. -/
+def Yaml.cfg (y : Yaml) : Cfg := { minTTL := y.min, override := y.enabled }
+
 end Agd.Cache
